@@ -367,8 +367,12 @@ def fam_minsize(rng):
             if touch:
                 self.pB[G] = 7
         ns["program"] = program
-        return type("VfMinSize", (XDP,), ns)()
-    return mk, dict(G=G, kind=kind, touch=touch)
+        # the class name becomes the program's name in the kernel
+        return type(cname, (XDP,), ns)()
+    cname = rng.choice(["VfMinSize", "V", "VfFifteenChars_", "VfSixteenChars__",
+                        "VfSeventeenChars_", "VfA_name_that_is_rather_long_x",
+                        "Vf_9"])
+    return mk, dict(G=G, kind=kind, touch=touch, name=cname)
 
 
 def fam_regmem(rng):
